@@ -3,3 +3,14 @@ import QmiModel.Props.C07
 #print axioms QmiModel.PubSub.key_injective
 #print axioms QmiModel.PubSub.remote_key_injective
 #print axioms QmiModel.PubSub.prefix_iff_same_context
+#print axioms QmiModel.PubSub.delivered_iff_in_snapshot
+#print axioms QmiModel.PubSub.delivered_iff_in_snapshot_done
+#print axioms QmiModel.PubSub.one_thread_per_snapshot
+#print axioms QmiModel.PubSub.unsubscribe_takes_effect
+#print axioms QmiModel.PubSub.quiet_preserved
+#print axioms QmiModel.PubSub.no_delivery_after_unsubscribe
+#print axioms QmiModel.PubSub.snaps_append_only
+#print axioms QmiModel.PubSub.deliveries_in_snapshot_order
+#print axioms QmiModel.PubSub.own_snapshots_in_publication_order
+#print axioms QmiModel.PubSub.per_publisher_thread_order_local
+#print axioms QmiModel.PubSub.per_publisher_thread_order_partial
